@@ -57,6 +57,12 @@ def CodeIllFormed (P : Project) : Prop := CodeCycle P ∨ SharedProduct P
 def AfterTargetsHaveProducts (P : Project) : Prop :=
   ∀ t ∈ P.tasks, ∀ o ∈ t.after, o ≠ t.id → HasProduct P o
 
+instance (P : Project) (o : Nat) : Decidable (HasProduct P o) := by
+  unfold HasProduct; infer_instance
+
+instance (P : Project) : Decidable (AfterTargetsHaveProducts P) := by
+  unfold AfterTargetsHaveProducts; infer_instance
+
 theorem CodeEdge.spec {P : Project} {a b : Vtx} (h : CodeEdge P a b) : SpecEdge P a b := by
   cases h with
   | dep h1 h2 => exact .dep h1 h2
@@ -529,6 +535,14 @@ theorem createDag_ok {P : Project} {cfg : Cfg} {g : G} {m : List Nat} (h : creat
   · rename_i hf
     simp only [Except.ok.injEq, Prod.mk.injEq] at h
     exact ⟨h.1.symm, by rw [← h.1]; simpa using hf⟩
+
+/-! ### exit codes (read from the source through `Generated.exitCodes` / `Generated.buildLadder`) -/
+
+theorem ladderCode_dag : ladderCode "ResolvingDependenciesError" = 4 := by decide
+theorem ladderCode_exception : ladderCode "Exception" = 1 := by decide
+theorem ladderCode_execution : ladderCode "ExecutionError" = 1 := by decide
+theorem exitCode_ok : exitCode "OK" = 0 := by decide
+theorem exitCode_dag : exitCode "DAG_FAILED" = 4 := by decide
 
 end Engine
 end Pytask
